@@ -85,6 +85,18 @@ func init() {
 	specs["C03"] = opSpec(3000, 150000, "checkpoint-verified")
 	specs["C06"] = opSpec(1500, 60000, "checkpoint-verified", "operator-killed", "operator-redeployed-in-place")
 	specs["C11"] = opSpec(3000, 150000, "timer-expired", "checkpoint-verified")
+	cluSpec := func(q, t int, probes ...string) spec {
+		return spec{Harness: "H-CLUSTER", OneShot: true, QuickRuns: q, QuickWallS: 70, ThoroughRuns: t, ThoroughWallS: 1500, MandatoryProbes: probes, ShrinkEvals: 120,
+			Real: []string{"jobs.Job / Registry / LivenessTracker / Assembly", "storage/snapshots.Store", "workers/sourcerunner", "workers/operator", "workers/wmark", "connectors.ReadSourceChannel", "batching", "partitioning", "dkv (all)", "clocks.SystemClock / SystemTimer on the fake clock", "generated protobuf code"},
+			Stub: []string{"connect/HTTP transport -> SimNet (same Handle* methods; 503 retry, transport errors, kill, partition)", "workers.Worker -> identical composition of SourceRunner + Operator", "source connector -> SimSource", "user handler -> self-verifying reference handler", "storage -> SimDisk", "sinks -> discard"},
+			Rule: "each run = one OS process = one seeded case (1-3 workers + standbys, key-group swarm, 1-5 splits x 4-64 records, batching, DKV sizing, handler latency, paced source spanning several one-minute checkpoint intervals, fault plan) under one seeded interleaving of every goroutine of the job and the workers, RPC deliveries and clock advances; oracles = self-verifying keyed state on every handler invocation, final checkpoint read back independently, per-stream delivery log, assignment / deploy logs; non-trivial = reached the final verified checkpoint; distinct = distinct released-task sequence"}
+	}
+	specs["C01"] = cluSpec(500, 20000, "worker-killed", "final-state-verified", "job-checkpoint-published")
+	specs["C04"] = cluSpec(500, 20000, "final-state-verified", "job-checkpoint-published")
+	specs["C05"] = cluSpec(500, 20000, "final-state-verified")
+	specs["C14"] = cluSpec(300, 10000, "final-state-verified")
+	specs["C15"] = cluSpec(400, 15000, "final-state-verified")
+	specs["C16"] = cluSpec(500, 20000, "final-state-verified")
 	specs["C20"] = spec{Harness: "H-BATCH", QuickRuns: 30000, QuickWallS: 50, ThoroughRuns: 1500000, ThoroughWallS: 1200, Chunk: 500,
 		MandatoryProbes: []string{"flush-size", "flush-timeout", "flush-explicit", "stale-token", "fetch"},
 		Real:            []string{"batching.EventBatcher", "batching.ReorderFetcher", "batching.ReorderBuffer", "clocks.SystemTimer on the bubble's fake clock"},
